@@ -86,6 +86,9 @@ type KVParams struct {
 	Paging      bool // prefix scans with offset/limit over 0..n+1
 	PSearch     bool
 	BadEnds     float64 // probability that a write transaction ends in rollback / fn error
+	BigP        float64 // probability that a multi-op write transaction carries an oversized entry (its commit must fail)
+	Restart     float64 // probability of a dirty restart step after a transaction
+	Merge       float64 // probability of a Merge step after a transaction
 }
 
 // advanceStep draws a clock move.
@@ -207,6 +210,14 @@ func KV(r *core.Rng, p KVParams) *prog.Program {
 		for j := 0; j < nops; j++ {
 			st.Ops = append(st.Ops, g.kvWrite(p))
 		}
+		if p.BigP > 0 && r.Bool(p.BigP) {
+			big := prog.Op{K: "put", B: g.pick(g.Bkts), Key: g.pick(g.Keys), Val: g.Val(), Big: int(pg.Cfg.SegSize)}
+			pos := r.Intn(len(st.Ops) + 1)
+			if len(st.Ops) > 0 && r.Bool(0.7) {
+				pos = 1 + r.Intn(len(st.Ops)) // not first: earlier entries are already on disk when it fails
+			}
+			st.Ops = append(st.Ops[:pos:pos], append([]prog.Op{big}, st.Ops[pos:]...)...)
+		}
 		if p.BadEnds > 0 && r.Bool(p.BadEnds) {
 			if r.Bool(0.5) {
 				st.End = "rollback"
@@ -224,6 +235,12 @@ func KV(r *core.Rng, p KVParams) *prog.Program {
 		}
 		if p.Reopen > 0 && r.Bool(p.Reopen) {
 			pg.Steps = append(pg.Steps, prog.Step{K: prog.SReopen})
+		}
+		if p.Restart > 0 && r.Bool(p.Restart) {
+			pg.Steps = append(pg.Steps, prog.Step{K: prog.SRestart})
+		}
+		if p.Merge > 0 && r.Bool(p.Merge) {
+			pg.Steps = append(pg.Steps, prog.Step{K: prog.SMerge})
 		}
 	}
 	pg.Renumber()
